@@ -346,6 +346,10 @@ def replay_case(cases, o):
     m2 = [n for n, _s, _d in case.inputs if ("input %s unchanged" % n) in o["name"]]
     if m2:
         res = ins[m2[0]]
+    if isinstance(w.get("contract_value"), list):          # the witness is a wrong SHAPE
+        shp = [int(s) for s in getattr(res, "shape", ())]
+        return {"reproduced": shp != [int(s) for s in w["contract_value"]], "sizes": w["sizes"], "inputs": w["inputs"],
+                "real_code_shape": shp, "contract_shape": w["contract_value"]}
     got = float(res[tuple(w["element"])]) if w["element"] else float(res)
     bad = abs(got - w["contract_value"]) > 1e-7 * (1 + abs(got) + abs(w["contract_value"]))
     return {"reproduced": bool(bad), "sizes": w["sizes"], "inputs": w["inputs"], "element": w["element"],
